@@ -92,6 +92,11 @@ def skeletons(v, tier):
                               ("float", ("raw", "g", True, [0, 0, 0, 0, 0, 0, 0xf8, 0xbf]))):
             inner2 = ("c", True, v, {"co_consts": (")", False, [("r", 1), ("N",)]), "co_name": S.text(v, b"h")})
             out.append(("shared-const-%s" % cname, {"co_consts": (")", False, [cshape, inner2, ("r", 1)])}, True))
+        # what marshal.dumps(compile(...)) writes from 3.7 on: the module code object itself unflagged, so the first flagged
+        # object - here a constants tuple shared by two functions - sits in reference slot 0
+        fn1 = ("c", False, v, {"co_consts": (")", True, [("i", False), ("N",)]), "co_name": S.text(v, b"p")})
+        fn2 = ("c", False, v, {"co_consts": ("r", 0), "co_name": S.text(v, b"q")})
+        out.append(("shared-slot0", {"co_consts": ("(", False, [fn1, fn2, ("N",)])}, False))
         out.append(("names-short", {"co_names": (")", True, [("Z", True, 1), ("r", 2)]), "co_filename": ("a", False, 1),
                                     "co_name": ("A", True, 1)}, True))
     if v >= (3, 11):
